@@ -81,3 +81,47 @@ pub fn error_after_mutation(v: &mut Vec<u8>, bad: bool) -> io::Result<()> {
     }
     Ok(())
 }
+
+// ---- allocation and loop controls (ALLOC-BOUND, LOOP-PROGRESS) ----
+
+pub fn alloc_unbounded(n: u64) -> Vec<u8> {
+    vec![0u8; n as usize]
+}
+
+pub fn alloc_bounded(n: u64) -> Vec<u8> {
+    if n > 4096 {
+        return Vec::new();
+    }
+    vec![0u8; n as usize]
+}
+
+pub fn loop_counted(v: &[u8]) -> u32 {
+    let mut i = 0;
+    let mut s = 0u32;
+    while i < v.len() {
+        s = s.wrapping_add(v[i] as u32);
+        i += 1;
+    }
+    s
+}
+
+pub fn loop_stuck(v: &[u8]) -> u32 {
+    let mut i = 0;
+    let mut s = 0u32;
+    while i < v.len() {
+        if v[i] == 0 {
+            continue;
+        }
+        s = s.wrapping_add(v[i] as u32);
+        i += 1;
+    }
+    s
+}
+
+pub fn loop_iter(v: &[u8]) -> u32 {
+    let mut s = 0u32;
+    for x in v {
+        s = s.wrapping_add(*x as u32);
+    }
+    s
+}
